@@ -75,7 +75,11 @@ def solve_end_state(cfg):
     import optax
     loss, P = problem(cfg["kind"], cfg.get("dim", 2))
     g = generator(cfg["kind"], cfg)
-    out = jinns.solve(n_iter=cfg["iters"], init_params=P, data=g, loss=loss, optimizer=optax.sgd(0.0), verbose=False)
+    kw = {}
+    if cfg.get("with_validation"):      # a validation module next to the refinement: the schedule is the same
+        import jinns.validation
+        kw["validation"] = jinns.validation.ValidationLoss(loss=loss, validation_data=generator(cfg["kind"], dict(cfg, seed=cfg["seed"] + 1)), call_every=2, early_stopping=False)
+    out = jinns.solve(n_iter=cfg["iters"], init_params=P, data=g, loss=loss, optimizer=optax.sgd(0.0), verbose=False, **kw)
     g2 = out[3]
     J = int(g2.rar_iter_nb)
     at = int((np.asarray(g2.p_times) != 0).sum()) if cfg["kind"] != "statio" else None
@@ -139,6 +143,7 @@ def generate(tier, seed, casedir, variant):
     nsolve = 3 if tier == "quick" else 12
     for j in range(nsolve):
         cfg = rand_cfg(rng, KINDS[j % 3]); cfg["iters"] = rng.randint(5, 9)
+        cfg["with_validation"] = (j % 2 == 1) or (tier == "quick" and j == 0)
         J, at, ax = solve_end_state(cfg)
         eJ = expected_steps(cfg)[-1][1]
         ok = J == eJ and (at is None or at == cfg["nt_start"] + eJ * cfg["sel_t"]) and (ax is None or ax == cfg["n_start"] + eJ * cfg["sel_x"])
